@@ -204,12 +204,16 @@ fn partition_indexed<const D: usize>(
     let enter = span.enter();
 
     let hilbert_indices: Vec<u64> = points.par_iter().map(index_fn).collect();
+    #[cfg(feature = "coupe_verif")]
+    crate::verif::record("hilbert_indices", hilbert_indices.clone());
 
     drop(enter);
     let span = tracing::info_span!("computing split positions");
     let enter = span.enter();
 
     let split_positions = weighted_quantiles(&hilbert_indices, weights, part_count);
+    #[cfg(feature = "coupe_verif")]
+    crate::verif::record("hilbert_splits", split_positions.clone());
 
     drop(enter);
     let span = tracing::info_span!("apply part ids");
@@ -577,6 +581,32 @@ where
             index_fn,
         );
         Ok(())
+    }
+}
+
+/// Read-only exports of the private encoders, for the verification harness.
+#[cfg(feature = "coupe_verif")]
+pub mod verif_exports {
+    pub fn pdep_u64(src: u64, mask: u64) -> u64 {
+        super::pdep_u64(src, mask)
+    }
+    pub fn pdep_u64_fallback(src: u64, mask: u64) -> u64 {
+        super::pdep_u64_fallback(src, mask)
+    }
+    pub fn encode_2d_slow(zorder: u64, order: usize, config: usize) -> (u64, usize) {
+        super::encode_2d_slow(zorder, order, config)
+    }
+    pub fn encode_2d(x: u64, y: u64, order: usize) -> u64 {
+        super::encode_2d(x, y, order)
+    }
+    pub fn encode_3d(x: u64, y: u64, z: u64, order: usize) -> u64 {
+        super::encode_3d(x, y, z, order)
+    }
+    pub fn segment_to_segment(min: f64, max: f64, order: usize) -> impl Fn(f64) -> u64 {
+        super::segment_to_segment(min, max, order)
+    }
+    pub fn weighted_quantiles_u64(points: &[u64], weights: &[f64], n: usize) -> Vec<u64> {
+        super::weighted_quantiles(points, weights, n)
     }
 }
 
